@@ -40,19 +40,18 @@ func pickUint(rng *chain.Rng) sdk.Uint {
 	return sdk.NewUintFromBigInt(cands[rng.Intn(len(cands))])
 }
 
-
 // ---- policy state as the Coq model sees it (Model/ClpPolicy.v) ----
 
 type polState struct {
-	Height                      int64
-	Max, Cur                    *big.Int
-	Epoch                       uint64
-	Active                      bool
-	Start, End, EpochLen        int64
-	Gov, Block, Running, Inter  *big.Int
-	Epochs, Blocks              int64
-	Rewards                     []*clptypes.RewardPeriod
-	Lppd                        []*clptypes.ProviderDistributionPeriod
+	Height                     int64
+	Max, Cur                   *big.Int
+	Epoch                      uint64
+	Active                     bool
+	Start, End, EpochLen       int64
+	Gov, Block, Running, Inter *big.Int
+	Epochs, Blocks             int64
+	Rewards                    []*clptypes.RewardPeriod
+	Lppd                       []*clptypes.ProviderDistributionPeriod
 }
 
 func decBig(d sdk.Dec) *big.Int {
